@@ -111,6 +111,12 @@ def apply_op(op: str, a: list, p: dict):
         return getattr(ndx, op)(a[0], a[1])
     if op == "where":
         return ndx.where(a[0], a[1], a[2])
+    if op == "where_mutate":
+        # the selection is written to in place afterwards and both branches are read again: a shortcut that hands
+        # back an operand un-copied behaves differently when the condition holds data and when it is a placeholder
+        z = ndx.where(a[0], a[1], a[2])
+        z[_idx(p["index"])] = a[3]
+        return ndx.concat([ndx.reshape(a[1], (-1,)), ndx.reshape(a[2], (-1,)), ndx.reshape(z, (-1,))])
     if op == "clip":
         return ndx.clip(a[0], min=p.get("min"), max=p.get("max"))
     if op in REDUCE:
@@ -321,6 +327,12 @@ def propose(rng: random.Random, pool: list[dict], families: list[str] | None = N
                     args.reverse()
                 return rng.choice(["logical_and", "logical_or", "logical_xor", "bitwise_and", "bitwise_or"]), args, {}
             return None
+        if rng.random() < 0.4 and len(const) == 4:
+            y = pick(lambda e: e["dtype"] == d and e["shape"] == shp)
+            if y is not None:
+                idx = [e for e in _basic_index(rng, shp) if e is not None]
+                v = ["py", 1 if _is_num(d) else (True if _is_bool(d) else "q")]
+                return "where_mutate", [const, x["ref"], y["ref"], v], {"index": idx}
         y = pick(lambda e: e["dtype"] == d or (_is_num(e["dtype"]) and _is_num(d)))
         if y is None:
             return None
